@@ -297,6 +297,12 @@ def link_records(ctx: Any, rule: str, mod: Module, label: str, rrecs: List[List[
             ok = bool(fr & fw)
             ctx.check(rule, ok, mod, ws.expr, f'{label}: slot {i} (`{rs.code}`) is stored by the reader into field(s) {sorted(fr)} (via `{rs.name}`) but the writer packs `{U(ws.expr)[:60]}` '
                       f'(field(s) {sorted(fw)}) into it', func=wname, text=f'{label} slot {i} {rs.name}')
+            if ok and (fw - fr) and isinstance(ws.expr, ast.BinOp) and isinstance(ws.expr.op, (ast.BitOr, ast.Add, ast.LShift)):
+                # the writer combines several fields into the slot (`area << k | flags`) while the reader takes the whole slot for one of
+                # them: the other field's bits end up in that field
+                n += 1
+                ctx.check(rule, False, mod, ws.expr, f'{label}: slot {i} (`{rs.code}`) is stored by the reader into {sorted(fr)} only (via `{rs.name}`, unsplit) but the writer packs `{U(ws.expr)[:60]}`, which also '
+                          f'carries {sorted(fw - fr)}: the combined value is read back as {sorted(fr)[0]}', func=wname, text=f'{label} slot {i} {rs.name} carries one field')
             if ok:
                 for fld in fr & fw:
                     rc = rcomp.get(rname, {}).get(fld)
